@@ -224,6 +224,13 @@ def flavour_records(tier, rng, wd):
                 steps.append(("set", gen.n(), gen.c(), t, gen.val(t)))
             else:
                 steps.append(("line", gen.line() + "\n"))
+        if i % 10 == 9 and ver in ("2.0", "2.1", "2.2"):
+            # scripted: a sleeping node with a pending desired value; its wake-up announcement and its own report of that value
+            # type (and a value request) are delivered in one go
+            wk = f"1;255;3;0;{32 if ver == '2.2' else 22};500\n"
+            steps = [("line", f"1;255;0;0;17;{ver}\n"), ("line", "1;0;0;0;6;temp\n"), ("line", "1;0;1;0;0;43\n"), ("line", wk),
+                     ("set", 1, 0, 0, "57"), ("burst", [wk, "1;0;1;0;0;44\n", "1;0;2;0;0;\n", wk]),
+                     ("set", 1, 0, 0, "62"), ("burst", ["1;0;2;0;0;\n", wk, "1;0;1;0;0;62\n"]), ("line", wk)]
         runs = []
         handler_jobs = []
         shared = Interner()          # one token table for the three runs (tokens are compared across them)
@@ -232,6 +239,13 @@ def flavour_records(tier, rng, wd):
             sched_rng = random.Random(i)
             out = []
             for st in steps:
+                if st[0] == "burst":
+                    # several lines in one chunk: the threaded gateway queues them all before the pump runs again
+                    for ln in st[1]:
+                        out += drv.recv(ln, now=1700000000)["out"]
+                    while mode != "async" and drv.gw.tasks.queue:
+                        out += _pump_tracking(drv, handler_jobs) if mode == "sched" else drv.pump()["out"]
+                    continue
                 if st[0] == "line":
                     ev = drv.recv(st[1], now=1700000000)
                 else:
